@@ -10,6 +10,9 @@ body (`always`: at the top level of the arm, `conditional`: inside an `if`,
 transition table (Rc/Model/Fsm.lean `arm`, Rc/Thm/C08.lean `isTodoArm`) was
 written from.  An arm that appears, disappears, names other events or changes
 its todo-status breaks the tie before the exhaustive injection even runs.
+The comparison is by (state, event) PAIR (first arm wins, as in `match`): arms that
+are merged into an or-pattern over states or events, or split, with the same
+todo-status are a note, not a difference.
 """
 import json
 import re
@@ -44,7 +47,8 @@ def inventory(repo):
     body = strip_comments(src[a:b])
     m = re.search(r"match\s*\(self\.state\(\),\s*&event\)\s*\{", body)
     body = body[m.end():]
-    heads = list(re.finditer(r"\(\s*S::(\w+)(?:\(_\))?\s*,([^()]*(?:\([^()]*\)[^()]*)*)\)\s*=>", body))
+    # the state part may be an or-pattern: `(S::OpenSent | S::OpenConfirm | S::Established, E::ManualStop) =>`
+    heads = list(re.finditer(r"\(\s*((?:S::\w+(?:\(_\))?\s*\|\s*)*S::\w+(?:\(_\))?)\s*,([^()]*(?:\([^()]*\)[^()]*)*)\)\s*=>", body))
     arms = []
     for k, h in enumerate(heads):
         end = heads[k + 1].start() if k + 1 < len(heads) else len(body)
@@ -69,8 +73,21 @@ def inventory(repo):
             todo = "always"
         else:
             todo = "conditional"
-        arms.append({"state": h.group(1), "events": events, "todo": todo})
+        for st in re.findall(r"S::(\w+)", h.group(1)):
+            arms.append({"state": st, "events": events, "todo": todo})
     return arms
+
+
+def pairs(arms):
+    """(state, event) -> todo-status, the first arm that names the pair wins (match semantics; `_` = every event
+    no earlier arm of the state names).  Two inventories with the same pairs differ only in how the arms are
+    grouped: merging `(S::A, E::X) => f()` and `(S::B, E::X) => f()` into `(S::A | S::B, E::X)`, or splitting
+    an arm, adds and removes no transition."""
+    d = {}
+    for a in arms:
+        for e in a["events"]:
+            d.setdefault((a["state"], e), a["todo"])
+    return d
 
 
 def main():
@@ -81,21 +98,22 @@ def main():
         print("wrote %d arms" % len(arms))
         return 0
     want = json.load(open(exp))
-    key = lambda a: (a["state"], tuple(a["events"]))
-    have_d = {key(a): a["todo"] for a in arms}
-    want_d = {key(a): a["todo"] for a in want}
+    have_d, want_d = pairs(arms), pairs(want)
     bad = []
     for k in sorted(set(have_d) | set(want_d)):
         if k not in want_d:
-            bad.append("new arm (S::%s, %s) todo=%s" % (k[0], " | ".join(k[1]), have_d[k]))
+            bad.append("new transition (S::%s, E::%s) todo=%s" % (k[0], k[1], have_d[k]))
         elif k not in have_d:
-            bad.append("arm gone (S::%s, %s)" % (k[0], " | ".join(k[1])))
+            bad.append("transition gone (S::%s, E::%s)" % k)
         elif have_d[k] != want_d[k]:
-            bad.append("arm (S::%s, %s): todo!() %s, inventory says %s" % (k[0], " | ".join(k[1]), have_d[k], want_d[k]))
+            bad.append("transition (S::%s, E::%s): todo!() %s, inventory says %s" % (k[0], k[1], have_d[k], want_d[k]))
+    regrouped = sorted((a["state"], tuple(a["events"])) for a in arms) != sorted((a["state"], tuple(a["events"])) for a in want)
     if bad:
         print("handle_event no longer matches the inventory the model was written from: " + "; ".join(bad))
         return 1
-    print("handle_event: %d arms match the inventory" % len(arms))
+    if regrouped:
+        print("fsm_arms note: the arms of handle_event are grouped differently from the inventory (same (state, event) pairs, same todo-status): re-record with --write")
+    print("handle_event: %d arms, %d (state, event) pairs match the inventory" % (len(arms), len(have_d)))
     return 0
 
 
